@@ -1,9 +1,11 @@
 (* Properties_C05.v — C05: header, POINT/ANALOG parameters and stored data always agree.
    Inv (Spec_Inv.v) is the agreement predicate; it is decidable (inv_b) and the extracted inv_b is
    evaluated on every snapshot of every run of the C05 check.
-   FULL STATEMENT (visible, not yet proved in Coq — the check decides it on generated histories):
-     C05_full: Inv is preserved by every accepted conforming call and holds of every reachable state. *)
-From EZ Require Import Base Types Api Proofs_Param Spec_Inv Proofs_Inv Float32 Run.
+   FULL STATEMENT (visible): C05_full_statement — Inv is preserved by every accepted conforming call.
+   PROVED for every state and every call: the header half (header counts / rate / frame count / channel
+   count / samples per frame follow the parameters after every mutator).  NOT yet proved: the parameter half
+   (POINT/ANALOG USED, FRAMES and the label-like lists follow the stored frames), decided by the check. *)
+From EZ Require Import Base Types Api Proofs_Param Proofs_Guards Spec_Inv Proofs_Inv Proofs_Header Float32 Run.
 Local Open Scope N_scope.
 
 Definition conforming (s : state) (o : op) : Prop :=
@@ -19,6 +21,43 @@ Definition C05_full_statement : Prop := forall f_key f_tosize f_div f_is_zero s 
   Inv s -> conforming s o -> step f_key f_tosize f_div f_is_zero s o = ROk tt s' -> Inv s'.
 
 (* ---- what is proved ---- *)
+
+(* THE HEADER FOLLOWS THE PARAMETERS, from ANY state: whenever the header updater returns normally the
+   header's point count, rate (to 1e-4 Hz: same key), frame count and channel count are those of POINT:USED,
+   POINT:RATE, POINT:FRAMES and ANALOG:USED, the sub-frame count is that of the first stored frame when it has
+   sub-frames, and nothing but the header changed *)
+Theorem C05_header_follows_parameters : forall f_key f_tosize f_div b s s',
+  update_header f_key f_tosize f_div b s = ROk tt s' ->
+  groups s' = groups s /\ frames s' = frames s /\ pro s' = pro s /\
+  (exists u, r_int0 13 (groups s) nm_POINT nm_USED = Ok u /\ h_points (hdr s') = z_to_usize u) /\
+  (exists rate k, r_float0 12 (groups s) nm_POINT nm_RATE = Ok rate /\ f_key rate = Ok k /\ f_key (h_rate (hdr s')) = Ok k) /\
+  (exists fz, r_int0 10 (groups s) nm_POINT nm_FRAMES = Ok fz /\
+     ((h_points (hdr s') <> 0 \/ h_nb_analogs (hdr s') <> 0) -> h_nb_frames (hdr s') = z_to_usize fz)) /\
+  (exists ga, group_named (groups s) nm_ANALOG = Ok ga /\
+     (g_params ga = [] -> h_meas (hdr s') = 0) /\
+     (g_params ga <> [] -> exists au, r_int0 17 (groups s) nm_ANALOG nm_USED = Ok au /\
+        (h_byframe (hdr s') <> 0 -> z_to_usize au * h_byframe (hdr s') < two64 -> h_nb_analogs (hdr s') = z_to_usize au))) /\
+  (forall fr, first_frame b s = Some fr -> fr_subs fr <> [] -> h_byframe (hdr s') = nlen (fr_subs fr)).
+Proof. exact update_header_agrees. Qed.
+Print Assumptions C05_header_follows_parameters.
+
+(* analog samples per frame = channels x sub-frames: kept by the updater, established whenever a setter runs *)
+Theorem C05_samples_are_channels_times_subframes : forall f_key f_tosize f_div b s s',
+  update_header f_key f_tosize f_div b s = ROk tt s' ->
+  exact (hdr s) ->
+  h_nb_analogs (hdr s) * h_byframe (hdr s') < two64 ->
+  (forall au, r_int0 17 (groups s) nm_ANALOG nm_USED = Ok au -> z_to_usize au * h_byframe (hdr s') < two64) ->
+  exact (hdr s').
+Proof. exact update_header_exact. Qed.
+Print Assumptions C05_samples_are_channels_times_subframes.
+
+(* ... and every public mutator that returns normally ends with that updater (lock toggles touch one flag) *)
+Theorem C05_after_every_call : forall f_key f_tosize f_div f_is_zero s o s',
+  step f_key f_tosize f_div f_is_zero s o = ROk tt s' ->
+  match o with OLock _ | OUnlock _ => True | _ => ends_with_uh f_key f_tosize f_div s' end.
+Proof. exact step_ends_with_updater. Qed.
+Print Assumptions C05_after_every_call.
+
 Theorem C05_initial_object : Inv init.
 Proof. exact inv_init. Qed.
 Print Assumptions C05_initial_object.
